@@ -236,6 +236,15 @@ func splitSexprs(s string) []string {
 }
 
 func (st *State) addCheck(c *Check) {
+	// "checks structure": the contract is about the shape of the function only (cancellable, callsonly, vacuity);
+	// preconditions of callees and loop invariants are not obligations of such a contract
+	if len(st.frames) > 0 && st.frames[0].contract != nil && st.frames[0].contract.Checks["structure"] {
+		switch c.Kind {
+		case "cancellable", "callsonly", "vacuity", "post":
+		default:
+			return
+		}
+	}
 	if c.Goal == "true" {
 		// trivially discharged; still counted
 		st.e.trivial = append(st.e.trivial, c)
